@@ -10,7 +10,7 @@ VERIF = os.path.dirname(os.path.dirname(os.path.abspath(__file__)))
 CHECKS = {
     "C01": ("model_checking", "deviation-bounded exhaustive search of scripted pressure environments on the real solveWall (<=2 deviations per execution, each replayed twice), an iteration-map model of the real wallPressure loop, a lattice of real end-to-end solves probed with a fresh solver (incl. nucleation temperatures tuned at run time so that the root sits just below the top of the search window), and exhaustive call histories on a real manager with bit-identity to a fresh manager",
             "Success with a finite velocity implies a sign change of the pressure within the configured tolerance, the window, and auxiliary data that carry the tag of the final evaluation; runaway implies negative pressure at the top and no velocity; failed final evaluations are labelled ERROR; deviations at earlier evaluations do not change the result; real solves: sign change at v -/+ 1.25 errTol with a fresh EOM, T+-/vJ/vLTE of the matching at v, wall parameters reproduced by one more evaluation; every operation history up to depth 2/3 leaves solveWall bit-identical.",
-            "trusted: the scripted environment sets the solver flags the way the real wallPressure/findPlasmaProfile do; out-of-equilibrium particles excluded (collision files are LFS pointers)", "DESIGN.md sections 3 C01 and 8.2"),
+            "trusted: the scripted environment sets the solver flags the way the real wallPressure/findPlasmaProfile do; real solves with an out-of-equilibrium particle use a synthetic collision operator (section offeq; the shipped collision files are LFS pointers)", "DESIGN.md sections 3 C01 and 8.2"),
     "C03": ("exploration", "exhaustive EOS x Tn x units x tolerance x wall-velocity lattice; independent integrator in the similarity variable xi with energy-flux jump at the front; efficiency factor from the oracle's own profile",
             "For every returned deflagration/hybrid matching that satisfies the junction conditions the oracle integrates the compression wave in xi, crosses the shock and must arrive at Tn (tolerance = solver tolerances x |dlnTn/dlnv+| computed by the oracle); momentum-flux jump for constant-c_s EOS; detonations T+==Tn, v+==vw exactly; efficiency factor against the oracle's kinetic-energy integral; direct solveHydroShock calls on a (vw,v+,T+) lattice.",
             "trusted: scipy DOP853 in the oracle; matchings violating the junction conditions are C02's finding D9 and skipped here", "DESIGN.md sections 3 C03 and 8.2"),
@@ -125,7 +125,7 @@ def main():
         ],
         "checks": checks,
         "not_applicable": na,
-        "notes": "Exit 0 = held on everything explored (KNOWN-FINDING lines for listed genuine defects), 1 = VIOLATION, 2 = harness error. known_findings.json lists confirmed defects by exact case id.",
+        "notes": "Exit 0 = held on everything explored (KNOWN-FINDING lines for listed genuine defects), 1 = VIOLATION, 2 = harness error. known_findings.json lists confirmed defects by exact case id / key prefix (one specific input) or, for the two rounding-dependent D9 findings, by input region + a signature the check computes itself (key_regex); 'fixed' entries suppress nothing. seeded/ = independently seeded property-breaking changes with the check result against each, benign/ = behaviour-preserving patches on which every check stays silent.",
     }
     with open(os.path.join(VERIF, "MANIFEST.json"), "w") as fh:
         json.dump(man, fh, indent=1)
